@@ -20,12 +20,45 @@ class Ctx:
     outf = None
 
 
+def cli(texts):
+    """the command line with the texts as source files (in this order) and -o: SHA-256 of exit status + output file"""
+    import tempfile
+    import shutil
+    from click.testing import CliRunner
+    d = tempfile.mkdtemp(prefix='verif-c18cli-')
+    try:
+        names = []
+        for i, t in enumerate(texts):
+            names.append(os.path.join(d, 'src%d.prolog' % i))
+            with open(names[-1], 'w', encoding='utf8', newline='') as f:
+                f.write(t)
+        outp = os.path.join(d, 'out.py')
+        old_err = sys.stderr
+        try:
+            r = CliRunner().invoke(compiler.main, names + ['-o', outp])
+        finally:
+            sys.stderr = old_err
+        written = b''
+        if os.path.exists(outp):
+            with open(outp, 'rb') as f:
+                written = f.read()
+        return 'CLI:%d:%s' % (r.exit_code, hashlib.sha256(written).hexdigest())
+    except BaseException as e:      # noqa
+        return 'EXC:' + type(e).__name__
+    finally:
+        shutil.rmtree(d, ignore_errors=True)
+
+
 def main():
     out = sys.stdout
     err = io.StringIO()
     sys.stderr = err
     for line in sys.stdin:
         req = json.loads(line)
+        if 'cli' in req:
+            out.write(cli(req['cli']) + '\n')
+            out.flush()
+            continue
         try:
             class C2(compiler.CompilerContext):
                 pass
